@@ -158,7 +158,7 @@ def enum_world(seed):
     rnd = random.Random(seed + 3030)
     scratch = tempfile.mkdtemp(prefix="c30.", dir=os.environ.get("PYVC_SCRATCH", "/var/tmp"))
     names = ["dev-util/foo", "dev-lang/python", "app-misc/bar"]
-    slots = [None, "0", "1", "10", "3.11", "0.5", "2_x"]
+    slots = [None, "0", "1", "10", "3.11", "0.5", "2_x", "3.0-gtk3", "3.0"]
     cases, fails = 0, []
 
     def entry(a):
@@ -192,6 +192,11 @@ def enum_world(seed):
                         on_disk = set(model)
                 except OSError:
                     pass
+                except Exception as exc:
+                    if len(fails) < 4:
+                        fails.append({"model": {"initial": initial, "history": list(hist)},
+                                      "detail": f"world file {initial} after {hist}: the last update raised {type(exc).__name__}: {exc}"})
+                    break
                 got = set(x for x in open(path).read().split("\n") if x)
                 if got != on_disk and len(fails) < 4:
                     fails.append({"model": {"initial": initial, "history": list(hist)},
@@ -201,7 +206,7 @@ def enum_world(seed):
                     pass
     finally:
         shutil.rmtree(scratch, ignore_errors=True)
-    return {"name": "C30.world_updates.bounded_enumeration", "bound": "120 seeded world files (0..3 entries) x 2..6 add / remove requests over 3 packages and 7 slot shapes through pmerge.update_worldset on the real WorldFile, "
+    return {"name": "C30.world_updates.bounded_enumeration", "bound": "120 seeded world files (0..3 entries) x 2..6 add / remove requests over 3 packages and 9 slot shapes through pmerge.update_worldset on the real WorldFile, "
             "a quarter of the updates interrupted at the final rename (and later retried by chance); file content compared after every step", "cases": cases, "failures": fails}
 
 
